@@ -35,6 +35,15 @@ struct pair_i32 { int32_t first, second; };
  * requires clauses, loop invariants and replaced contracts); GV_WITNESS may
  * pin inputs to concrete values in that binary only, to keep the solver's
  * search for a model cheap. */
+/* small-domain refuter: a third binary (-DGV_SMALLDOM) restricts the inputs
+ * to a small domain so that the SAT back end finds counterexamples of
+ * nonlinear contracts quickly; a counterexample under an extra assumption is
+ * still a counterexample.  Never used to PROVE anything. */
+#ifdef GV_SMALLDOM
+#define GV_SMALL(c) __CPROVER_assume(c)
+#else
+#define GV_SMALL(c)
+#endif
 #ifdef GV_REACH
 #define GV_WITNESS(c) __CPROVER_assume(c)
 #define GV_REACH_END __CPROVER_assert(0, "gv-reach-end")
